@@ -419,6 +419,9 @@ class Sym:
     def arctan(s):
         return Sym(dag.fn("arctan", s.n))
 
+    def arcsin(s):
+        return Sym(dag.fn("arcsin", s.n))
+
     def erf(s):
         return Sym(dag.fn("erf", s.n))
 
